@@ -476,6 +476,67 @@ def _p6_chunk(params, lo, hi):
     return r
 
 
+def _ladder_chunk(params, lo, hi):
+    """4 nodes with bundles of parallel arcs whose weights form ladders: 4 x 0->2 and 5 x 2->1 (each bundle listed with
+    decreasing or increasing weights, so that a label is improved up to five times and the queue holds up to ten entries
+    for four nodes), plus 0->1, 1->3 and 2->3. index = ((((b1*4 + b2)*4 + w01)*4 + w13)*4 + w23)*4 + order_bits"""
+    r = new_result()
+    for idx in range(lo, hi):
+        ob = idx % 4
+        ds = digits(idx // 4, 4, 5)
+        w23, w13, w01, b2, b1 = (1 + d for d in ds)
+        l1 = [(0, 2, b1 + k) for k in (3, 2, 1, 0)]
+        l2 = [(2, 1, b2 + k) for k in (4, 3, 2, 1, 0)]
+        if ob & 1:
+            l1.reverse()
+        if ob & 2:
+            l2.reverse()
+        arcs = l1 + [(0, 1, w01 + 6)] + l2 + [(1, 3, w13), (2, 3, w23 + 4)]
+        run_nonneg(r, 4, arcs, full=False)
+        if len(r["violations"]) >= 40 or r["counters"]["hangs"] >= 2 or too_many_hangs():
+            r["capped"] = True
+            break
+    return r
+
+
+def _stale_queue_chunk(params, lo, hi):
+    """4 nodes: four parallel arcs 0->2 with decreasing weights (gaps from {1,8}), a direct arc 0->3 placed at each of
+    the five positions of node 0's list, five parallel arcs 2->1 with decreasing weights (gaps from {1,7}), and 1->3:
+    when node 2 is settled the queue holds three stale entries, the direct entry for the target and five entries for
+    node 1 - the target's entry must wait although it is already queued.
+    index = ((((g1*2 + b1)*16 + g2)*7 + d)*5 + pos)*2 + w13"""
+    r = new_result()
+    for idx in range(lo, hi):
+        w13 = 1 + idx % 2
+        k = idx // 2
+        pos = k % 5
+        k //= 5
+        d = 8 + k % 7
+        k //= 7
+        g2 = digits(k % 16, 2, 4)
+        k //= 16
+        b1 = 1 + k % 2
+        g1 = digits(k // 2, 2, 3)
+        w = b1
+        l1 = [w]
+        for g in g1:
+            w += (1, 8)[g]
+            l1.append(w)
+        w = 9
+        l2 = [w]
+        for g in g2:
+            w += (1, 7)[g]
+            l2.append(w)
+        out0 = [(0, 2, x) for x in reversed(l1)]
+        out0.insert(pos, (0, 3, d))
+        arcs = [(2, 1, x) for x in reversed(l2)] + out0 + [(1, 3, w13)]
+        run_nonneg(r, 4, arcs, full=False)
+        if len(r["violations"]) >= 40 or r["counters"]["hangs"] >= 2 or too_many_hangs():
+            r["capped"] = True
+            break
+    return r
+
+
 def _n4_chunk(params, lo, hi):
     """4 nodes, exactly k arcs (no self loops), weights over alpha: index = comb_index * |alpha|^k + weights"""
     k, alpha, negative = params
@@ -627,6 +688,8 @@ def _terrain_chunk(params, lo, hi):
 
 def jobs(tier, seed):
     js = []
+    js.append(Job("n4_stale_queue_entries", 8 * 2 * 16 * 7 * 5 * 2, _stale_queue_chunk, None, describe="4 nodes, two bundles of parallel arcs with decreasing weights and a direct arc to the target queued early: nine queue entries when the second node is settled"))
+    js.append(Job("n4_parallel_weight_ladders", 4**5 * 4, _ladder_chunk, None, describe="4 nodes, bundles of 4 and 5 parallel arcs with laddered weights (labels improved up to five times), three more arcs, all base weights 1..4"))
     js.append(Job("n6_subsets_of_declared_arcs", 2 ** len(P6) * 4, _p6_chunk, None, describe=f"6 nodes, every subset of {P6}, both arc orders, weights as listed and mod 3; every solver, every (s,t)"))
     if tier == "thorough":
         js.append(Job("n3_nonneg_absent012", 4**9, _n3_chunk, ((None, 0, 1, 2), 8), describe="all digraphs on 3 nodes incl. self loops over {absent,0,1,2}; every 8th graph gets the full cross (labels, predicates, max_iter, max_cost, 3 heuristics), all get every (s,t) for every solver"))
